@@ -3,6 +3,17 @@
 #include "common/vh.hpp"
 
 #include <fcppt/bit/mask.hpp>
+#include <fcppt/bit/mask_c.hpp>
+#include <fcppt/bit/shifted_mask_c.hpp>
+#include <fcppt/cast/promote_int.hpp>
+#include <fcppt/cast/safe_numeric.hpp>
+#include <fcppt/cast/size.hpp>
+#include <fcppt/cast/to_signed.hpp>
+#include <fcppt/cast/to_unsigned.hpp>
+#include <fcppt/enum/size.hpp>
+#include <fcppt/math/ceil_div_static.hpp>
+#include <fcppt/math/interval_distance.hpp>
+#include <fcppt/tuple/object.hpp>
 #include <fcppt/bit/shifted_mask.hpp>
 #include <fcppt/bit/test.hpp>
 #include <fcppt/cast/truncation_check.hpp>
@@ -85,6 +96,11 @@ constexpr i128 hi = static_cast<i128>(std::numeric_limits<T>::max());
 
 using fn = std::function<std::string(i128, i128, i128)>;
 std::map<std::string, fn> table;
+// second generation: four-argument functions, argument-free (compile-time) functions, one object in every parameter
+using fn4 = std::function<std::string(i128, i128, i128, i128)>;
+std::map<std::string, fn4> table4;
+std::map<std::string, std::function<std::string()>> table0;
+std::map<std::string, std::function<std::string(i128)>> alias_table;
 
 template <typename T> char const *tn();
 template <> char const *tn<std::uint8_t>() { return "u8"; }
@@ -143,8 +159,35 @@ void reg_unsigned()
 }
 
 template <typename T>
+void reg_alias()
+{
+  // the same object bound to every (reference) parameter
+  std::string const t = tn<T>();
+  alias_table["clamp_" + t] = [](i128 a) {
+    T const x = static_cast<T>(a);
+    return show(fcppt::math::clamp<T>(x, x, x));
+  };
+  alias_table["diff_" + t] = [](i128 a) {
+    T const x = static_cast<T>(a);
+    return show(fcppt::math::diff<T>(x, x));
+  };
+  if constexpr (std::is_unsigned_v<T>)
+  {
+    alias_table["mod_" + t] = [](i128 a) {
+      T const x = static_cast<T>(a);
+      return show(fcppt::math::mod<T>(x, x));
+    };
+    alias_table["bit_test_" + t] = [](i128 a) {
+      T const x = static_cast<T>(a);
+      return show(fcppt::bit::test(x, fcppt::bit::mask<T>{x}));
+    };
+  }
+}
+
+template <typename T>
 void reg_all()
 {
+  reg_alias<T>();
   std::string const t = tn<T>();
   table["clamp_" + t] = [](i128 v, i128 l, i128 h) {
     return show(fcppt::math::clamp<T>(static_cast<T>(v), static_cast<T>(l), static_cast<T>(h)));
@@ -166,11 +209,136 @@ void reg_div()
 {
   std::string const t = tn<T>();
   table["div_" + t] = [](i128 a, i128 b, i128) {
-    if constexpr (std::is_signed_v<T>)
-      if (b == -1 && a == lo<T>)
+    // the quotient is computed in the promoted type: INT_MIN / -1 only overflows there
+    if constexpr (std::is_signed_v<promoted<T>>)
+      if (b == -1 && a == lo<promoted<T>>)
         return std::string{"signed-overflow"};
     return show(fcppt::math::div(static_cast<T>(a), static_cast<T>(b)));
   };
+  alias_table["div_" + t] = [](i128 a) {
+    T const x = static_cast<T>(a);
+    return show(fcppt::math::div(x, x));
+  };
+}
+
+// math::div with different operand types: the usual arithmetic conversions pick the type the division is done in
+template <typename L, typename R>
+void reg_div_mixed()
+{
+  using C = decltype(L{} / R{});
+  table[std::string("div_") + tn<L>() + "_" + tn<R>()] = [](i128 a, i128 b, i128) {
+    if constexpr (std::is_signed_v<C>)
+      if (static_cast<i128>(static_cast<C>(static_cast<R>(b))) == -1 && static_cast<i128>(static_cast<C>(static_cast<L>(a))) == lo<C>)
+        return std::string{"signed-overflow"};
+    return show(fcppt::math::div(static_cast<L>(a), static_cast<R>(b)));
+  };
+}
+
+// math::interval_distance.  For int and wider signed types a difference that is not representable is undefined: the
+// subtractions the function evaluates are predicted here in 128-bit arithmetic (same order of evaluation as the source).
+template <typename T>
+void reg_interval()
+{
+  table4[std::string("interval_distance_") + tn<T>()] = [](i128 a1, i128 b1, i128 a2, i128 b2) {
+    using P = promoted<T>;
+    if constexpr (std::is_signed_v<P>)
+    {
+      i128 x1 = a1, y1 = b1, x2 = a2, y2 = b2;
+      if (y1 <= y2)
+      {
+        std::swap(x1, x2);
+        std::swap(y1, y2);
+      }
+      auto const bad = [](i128 d) { return d < lo<P> || d > hi<P>; };
+      if (x2 <= x1 ? bad(x1 - y2) : (bad(y2 - y1) || bad(x1 - x2)))
+        return std::string{"signed-overflow"};
+    }
+    using tup = fcppt::tuple::object<T, T>;
+    return show(fcppt::math::interval_distance<T>(tup{static_cast<T>(a1), static_cast<T>(b1)}, tup{static_cast<T>(a2), static_cast<T>(b2)}));
+  };
+}
+
+template <typename D, typename S>
+void reg_size()
+{
+  std::string const n = std::string(tn<D>()) + "_" + tn<S>();
+  table["size_" + n] = [](i128 a, i128, i128) { return show(fcppt::cast::size<D>(static_cast<S>(a))); };
+  if constexpr (sizeof(D) >= sizeof(S))
+    table["safe_numeric_" + n] = [](i128 a, i128, i128) { return show(fcppt::cast::safe_numeric<D>(static_cast<S>(a))); };
+}
+
+template <typename D>
+void reg_size_u()
+{
+  reg_size<D, std::uint8_t>();
+  reg_size<D, std::uint16_t>();
+  reg_size<D, std::uint32_t>();
+  reg_size<D, std::uint64_t>();
+}
+
+template <typename D>
+void reg_size_i()
+{
+  reg_size<D, std::int8_t>();
+  reg_size<D, std::int16_t>();
+  reg_size<D, std::int32_t>();
+  reg_size<D, std::int64_t>();
+}
+
+template <typename T>
+void reg_casts()
+{
+  std::string const t = tn<T>();
+  table["promote_int_" + t] = [](i128 a, i128, i128) {
+    auto const r = fcppt::cast::promote_int(static_cast<T>(a));
+    static_assert(std::is_same_v<decltype(r), promoted<T> const>);
+    return show(r);
+  };
+  if constexpr (std::is_unsigned_v<T>)
+    table["to_signed_" + t] = [](i128 a, i128, i128) { return show(fcppt::cast::to_signed(static_cast<T>(a))); };
+  else
+    table["to_unsigned_" + t] = [](i128 a, i128, i128) { return show(fcppt::cast::to_unsigned(static_cast<T>(a))); };
+}
+
+template <typename T, T M>
+void reg_mask_c()
+{
+  table0[std::string("mask_c_") + tn<T>() + "_" + str(static_cast<i128>(M))] = [] {
+    constexpr fcppt::bit::mask<T> m{fcppt::bit::mask_c<T, M>()};
+    return show(m.get());
+  };
+}
+
+template <typename T, fcppt::bit::shift_count B>
+void reg_shifted_mask_c()
+{
+  table0[std::string("shifted_mask_c_") + tn<T>() + "_" + str(static_cast<i128>(B))] = [] {
+    constexpr fcppt::bit::mask<T> m{fcppt::bit::shifted_mask_c<T, B>()};
+    return show(m.get());
+  };
+}
+
+// ceil_div_static: a compile-time table (the pairs the generator uses)
+std::map<std::string, std::string> static_table;
+template <typename T, T A, T B>
+void reg_static()
+{
+  static_table[std::string("ceil_div_static_") + tn<T>() + " " + str(static_cast<i128>(A)) + " " + str(static_cast<i128>(B))] =
+      "some " + show(fcppt::math::ceil_div_static<T, A, B>::value);
+}
+
+template <typename T, T... A>
+void reg_static_row()
+{
+  // every dividend with the divisors 1, 2, 3, 7, 2^16, max-1, max
+  constexpr T mx = std::numeric_limits<T>::max();
+  (reg_static<T, A, 1>(), ...);
+  (reg_static<T, A, 2>(), ...);
+  (reg_static<T, A, 3>(), ...);
+  (reg_static<T, A, 7>(), ...);
+  (reg_static<T, A, 65536>(), ...);
+  (reg_static<T, A, mx - 1>(), ...);
+  (reg_static<T, A, mx>(), ...);
 }
 
 enum class eu8_1 : std::uint8_t { a, fcppt_maximum = a };
@@ -209,8 +377,111 @@ void reg_from_int()
   };
 }
 
+template <typename E>
+void reg_enum_size(char const *const u, i128 const maximum)
+{
+  static_assert(std::is_same_v<typename fcppt::enum_::size<E>::value_type, std::make_unsigned_t<std::underlying_type_t<E>>>);
+  static_table[std::string("enumsize ") + u + " " + str(maximum)] = str(static_cast<i128>(fcppt::enum_::size<E>::value));
+}
+
+template <typename T>
+void reg_second()
+{
+  reg_interval<T>();
+  reg_casts<T>();
+}
+
+void init2()
+{
+  reg_second<std::uint8_t>();
+  reg_second<std::uint16_t>();
+  reg_second<std::uint32_t>();
+  reg_second<std::uint64_t>();
+  reg_second<std::int8_t>();
+  reg_second<std::int16_t>();
+  reg_second<std::int32_t>();
+  reg_second<std::int64_t>();
+  reg_div<std::uint8_t>();
+  reg_div<std::int8_t>();
+  reg_div<std::uint16_t>();
+  reg_div<std::int16_t>();
+  reg_div_mixed<std::int32_t, std::uint32_t>();
+  reg_div_mixed<std::uint32_t, std::int32_t>();
+  reg_div_mixed<std::int8_t, std::uint8_t>();
+  reg_div_mixed<std::uint8_t, std::int64_t>();
+  reg_div_mixed<std::int64_t, std::uint64_t>();
+  reg_div_mixed<std::uint16_t, std::int32_t>();
+  reg_div_mixed<std::int16_t, std::uint64_t>();
+  reg_div_mixed<std::uint64_t, std::int8_t>();
+  reg_div_mixed<std::int32_t, std::int64_t>();
+  reg_div_mixed<std::uint32_t, std::uint64_t>();
+  reg_size_u<std::uint8_t>();
+  reg_size_u<std::uint16_t>();
+  reg_size_u<std::uint32_t>();
+  reg_size_u<std::uint64_t>();
+  reg_size_i<std::int8_t>();
+  reg_size_i<std::int16_t>();
+  reg_size_i<std::int32_t>();
+  reg_size_i<std::int64_t>();
+  reg_mask_c<std::uint8_t, 0>();
+  reg_mask_c<std::uint8_t, 1>();
+  reg_mask_c<std::uint8_t, 5>();
+  reg_mask_c<std::uint8_t, 255>();
+  reg_mask_c<std::uint16_t, 0>();
+  reg_mask_c<std::uint16_t, 256>();
+  reg_mask_c<std::uint16_t, 65535>();
+  reg_mask_c<std::uint32_t, 0>();
+  reg_mask_c<std::uint32_t, 65536>();
+  reg_mask_c<std::uint32_t, 4294967295U>();
+  reg_mask_c<std::uint64_t, 0>();
+  reg_mask_c<std::uint64_t, 4294967296ULL>();
+  reg_mask_c<std::uint64_t, 18446744073709551615ULL>();
+  reg_shifted_mask_c<std::uint8_t, 0>();
+  reg_shifted_mask_c<std::uint8_t, 3>();
+  reg_shifted_mask_c<std::uint8_t, 7>();
+  reg_shifted_mask_c<std::uint16_t, 0>();
+  reg_shifted_mask_c<std::uint16_t, 8>();
+  reg_shifted_mask_c<std::uint16_t, 15>();
+  reg_shifted_mask_c<std::uint32_t, 0>();
+  reg_shifted_mask_c<std::uint32_t, 16>();
+  reg_shifted_mask_c<std::uint32_t, 31>();
+  reg_shifted_mask_c<std::uint64_t, 0>();
+  reg_shifted_mask_c<std::uint64_t, 32>();
+  reg_shifted_mask_c<std::uint64_t, 63>();
+  reg_static_row<std::uint32_t, 0, 1, 2, 3, 6, 7, 8, 65535, 65536, 65537, 2147483648U, 4294967294U, 4294967295U>();
+  reg_static_row<std::uint64_t, 0, 1, 2, 3, 6, 7, 8, 65535, 65536, 65537, 4294967296ULL, 9223372036854775808ULL, 18446744073709551614ULL,
+                 18446744073709551615ULL>();
+  reg_enum_size<eu8_1>("u8", 0);
+  reg_enum_size<eu8_3>("u8", 2);
+  reg_enum_size<eu8_255>("u8", 254);
+  reg_enum_size<eu16_3>("u16", 2);
+  reg_enum_size<eu16_257>("u16", 256);
+  reg_enum_size<eu16_65535>("u16", 65534);
+  reg_enum_size<eu32_3>("u32", 2);
+  reg_enum_size<eu32_70000>("u32", 69999);
+  reg_enum_size<eu64_3>("u64", 2);
+  reg_enum_size<eu64_5000000000>("u64", 4999999999LL);
+  alias_table["ceil_div_u32"] = [](i128 a) {
+    std::uint32_t const x = static_cast<std::uint32_t>(a);
+    return show(fcppt::math::ceil_div<std::uint32_t>(x, x));
+  };
+  alias_table["ceil_div_u64"] = [](i128 a) {
+    std::uint64_t const x = static_cast<std::uint64_t>(a);
+    return show(fcppt::math::ceil_div<std::uint64_t>(x, x));
+  };
+  alias_table["ceil_div_signed_i32"] = [](i128 a) {
+    std::int32_t const x = static_cast<std::int32_t>(a);
+    return show(fcppt::math::ceil_div_signed<std::int32_t>(x, x));
+  };
+  alias_table["ceil_div_signed_i64"] = [](i128 a) {
+    std::int64_t const x = static_cast<std::int64_t>(a);
+    return show(fcppt::math::ceil_div_signed<std::int64_t>(x, x));
+  };
+}
+
 void init()
 {
+  init2();
   reg_trunc_all<std::uint8_t>();
   reg_trunc_all<std::uint16_t>();
   reg_trunc_all<std::uint32_t>();
@@ -305,8 +576,76 @@ std::vector<i128> ilist(std::string const &s)
   return r;
 }
 
+std::string handle2(std::vector<std::string> const &t, bool &done)
+{
+  done = true;
+  if (t[0] == "call" && t.size() == 2)
+  {
+    auto const it = table0.find(t[1]);
+    return it == table0.end() ? "bad-op" : it->second();
+  }
+  if ((t[0] == "call" && t.size() == 6) || (t[0] == "list4" && t.size() == 3))
+  {
+    auto const it = table4.find(t[1]);
+    if (it == table4.end())
+      return "bad-op";
+    if (t[0] == "call")
+      return it->second(parse(t[2]), parse(t[3]), parse(t[4]), parse(t[5]));
+    std::uint64_t h = vh::fnv_init;
+    auto const as = ilist(t[2]);
+    for (i128 a : as)
+      for (i128 b : as)
+        for (i128 c : as)
+          for (i128 d : as)
+            h = vh::fnv(h, it->second(a, b, c, d));
+    return "D " + vh::hex64(h);
+  }
+  if (t[0] == "alias" || t[0] == "aliasl" || t[0] == "aliasr")
+  {
+    auto const it = alias_table.find(t[1]);
+    if (it == alias_table.end())
+      return "bad-op";
+    if (t[0] == "alias" && t.size() == 3)
+      return it->second(parse(t[2]));
+    std::uint64_t h = vh::fnv_init;
+    if (t[0] == "aliasl" && t.size() == 3)
+    {
+      for (i128 a : ilist(t[2]))
+        h = vh::fnv(h, it->second(a));
+    }
+    else if (t[0] == "aliasr" && t.size() == 4)
+    {
+      for (i128 a = parse(t[2]); a <= parse(t[3]); ++a)
+        h = vh::fnv(h, it->second(a));
+    }
+    else
+      return "bad-op";
+    return "D " + vh::hex64(h);
+  }
+  if (t[0] == "static2" && t.size() == 4)
+  {
+    auto const it = static_table.find(t[1] + " " + t[2] + " " + t[3]);
+    return it == static_table.end() ? "bad-op" : it->second;
+  }
+  if (t[0] == "enumsize" && t.size() == 3)
+  {
+    auto const it = static_table.find("enumsize " + t[1] + " " + t[2]);
+    return it == static_table.end() ? "bad-op" : it->second;
+  }
+  done = false;
+  return "";
+}
+
 std::string handle(std::vector<std::string> const &t)
 {
+  if (t.size() < 2)
+    return "bad-op";
+  {
+    bool done = false;
+    std::string r = handle2(t, done);
+    if (done)
+      return r;
+  }
   if (t.size() < 3)
     return "bad-op";
   if (t[0] == "selfcheck" && t.size() == 3)
